@@ -8,7 +8,9 @@
                                            correspondence of harness/props/c17.py)
   Spec  = MongoModel.Spec.Catalog.step / run   (the explicit-existence namespace)
   D     = MongoModel.Spec.Catalog.inD / histInD (decidable, state dependent; its negation is
-                                           the list of named classes of Spec/CatalogDomain.lean)
+                                           the list of named classes of Spec/CatalogDomain.lean:
+                                           no known finding is left, only the two scope limits
+                                           `unobtained_handle` and `filter_falsy_name`)
   abs   = MongoModel.Spec.Catalog.abs     (forget everything that is not an existing collection)
   Rel   = MongoModel.Spec.Catalog.Rel     (model state and oracle state describe one namespace)
 -/
@@ -34,6 +36,9 @@ def wVanishDoc : List Op :=
 def wVanishIndex : List Op :=
   [.getDb 0 "d1", .getColl d1 "a", .coll a1 (.createIndex none xIdx),
    .coll a1 (.dropIndex (.byName "x_1")), .listCollectionNames d1 none]
+/-- what is read after either of them: the database, the indexes, the documents -/
+def wStillThere : List Op :=
+  [.listDatabaseNames 2, .coll a1 .indexInformation, .coll a1 .find]
 def wRenameSelf : List Op :=
   [.getDb 0 "d1", .getColl d1 "a", .coll a1 (.insert 1), .renameCollection d1 "a" "a" true,
    .coll a1 .find]
@@ -61,45 +66,46 @@ def wGood : List Op :=
 
 /-! ### The refinement -/
 
-/-- Full strength: along every history (handles obtained before use) the real code answers what
-    the explicit-existence namespace answers. -/
-def refinement_full : Prop :=
-  ∀ (σ : Nat → Nat) (ops : List Op), histInScope σ World.init ops = true →
-    OutsEquiv (Catalog.run σ World.init ops).2 (Spec.Catalog.run σ SWorld.init ops).2
-
-/-- It is false of the code as it stands (known finding `vanish_last_doc`): insert a document,
-    delete it, list — the collection is gone.  The same history is replayed on /repo. -/
-theorem refinement_full_fails : ¬ refinement_full := by
-  intro h
-  exact absurd (h σ3 wVanishDoc (by decide +kernel)) (by decide +kernel)
-
-/-- **Main theorem (partial: on D), one step.**  From every well-formed state, a step in D of
-    the model and the same step of the oracle from the abstracted state end in states that
-    denote the same maps, with equivalent outputs. -/
-theorem step_refinement_partial (σ : Nat → Nat) (w : World) (op : Op) (hw : WF w)
+/-- **Main theorem, one step.**  From every well-formed state, a step of the model (in the scope
+    of the model: handles obtained before use, no empty-name listing filter) and the same step
+    of the oracle from the abstracted state end in states that denote the same maps, with
+    equivalent outputs.  No class of behaviour is excluded any more. -/
+theorem step_refinement (σ : Nat → Nat) (w : World) (op : Op) (hw : WF w)
     (hD : inD σ w op = true) :
     SEq (abs (Catalog.step σ w op).1) (Spec.Catalog.step σ (abs w) op).1 ∧
     OutEquiv (Catalog.step σ w op).2 (Spec.Catalog.step σ (abs w) op).2 :=
   Proofs.C17.step_refinement_abs σ w op hw hD
 
+/-- a well-formed state (reachable: `reachable_wf`) with a collection that holds one document
+    and was never explicitly created, and the step that deletes that document -/
+example : WF (Catalog.run σ3 World.init (wVanishDoc.take 3)).1 ∧
+    inD σ3 (Catalog.run σ3 World.init (wVanishDoc.take 3)).1 (.coll a1 (.deleteOne 1)) = true :=
+  ⟨Proofs.C17.reachable_wf σ3 _ ⟨_, rfl⟩, by decide +kernel⟩
+
 /-- the same as a simulation: related states stay related -/
-theorem simulation_step_partial (σ : Nat → Nat) (w : World) (s : SWorld) (op : Op)
+theorem simulation_step (σ : Nat → Nat) (w : World) (s : SWorld) (op : Op)
     (hR : Rel w s) (hD : inD σ w op = true) :
     Rel (Catalog.step σ w op).1 (Spec.Catalog.step σ s op).1 ∧
     OutEquiv (Catalog.step σ w op).2 (Spec.Catalog.step σ s op).2 :=
   Proofs.C17.step_refines σ w s op hR hD
 
-/-- **Main theorem (partial: on D), whole histories.**  Along every history whose steps are all
-    in D the model and the oracle give equivalent outputs and end in related states. -/
-theorem refinement_partial (σ : Nat → Nat) (ops : List Op)
+example : Rel World.init SWorld.init ∧ inD σ3 World.init (.getDb 0 "d1") = true :=
+  ⟨Proofs.C17.rel_init, by decide +kernel⟩
+
+/-- **Main theorem, whole histories (full strength).**  Along every history (handles obtained
+    before use) the real code answers what the explicit-existence namespace answers, and the two
+    end in related states. -/
+theorem refinement (σ : Nat → Nat) (ops : List Op)
     (hD : histInD σ World.init ops = true) :
     Rel (Catalog.run σ World.init ops).1 (Spec.Catalog.run σ SWorld.init ops).1 ∧
     OutsEquiv (Catalog.run σ World.init ops).2 (Spec.Catalog.run σ SWorld.init ops).2 :=
   Proofs.C17.run_refines σ ops _ _ Proofs.C17.rel_init hD
 
 /-- D contains non-trivial histories: create, insert, index, rename through a second client on
-    the same store, reads through the old handles, drop, reuse, listing. -/
-example : histInD σ3 World.init wGood = true := by decide +kernel
+    the same store, reads through the old handles, drop, reuse, listing - and the histories that
+    empty a collection which was never explicitly created. -/
+example : histInD σ3 World.init wGood = true ∧ histInD σ3 World.init (wVanishDoc ++ wStillThere) = true ∧
+    histInD σ3 World.init (wVanishIndex ++ wStillThere) = true := by decide +kernel
 
 /-- every reachable state is well formed (so `WF` below is no restriction on real states) -/
 theorem reachable_wf (σ : Nat → Nat) (w : World) (h : Reachable σ w) : WF w :=
@@ -107,27 +113,27 @@ theorem reachable_wf (σ : Nat → Nat) (w : World) (h : Reachable σ w) : WF w 
 
 example : Reachable σ3 (Catalog.run σ3 World.init wGood).1 := ⟨wGood, rfl⟩
 
-/-! ### Every remaining exclusion class of D is needed: a witness history inside the scope of the
-model whose only departures from D are of that class, and on which model and oracle disagree -/
+/-! ### The seven classes repaired in the library
 
-theorem exclusion_vanish_last_doc_needed :
-    histInScope σ3 World.init wVanishDoc = true ∧
-    histReasons σ3 World.init wVanishDoc = ["vanish_last_doc"] ∧
-    ¬ OutsEquiv (Catalog.run σ3 World.init wVanishDoc).2
-        (Spec.Catalog.run σ3 SWorld.init wVanishDoc).2 := by decide +kernel
+The witness histories of the former known findings `vanish_last_doc`, `vanish_last_index`,
+`rename_self_droptarget`, `filter_lists_uncreated`, `drop_database_foreign_handle`,
+`drop_collection_foreign_handle` and `system_create_existing` are inside D now (no exclusion class
+is left for them), so `refinement` covers them; the answers of the model on them are spelt out. -/
 
-theorem exclusion_vanish_last_index_needed :
-    histInScope σ3 World.init wVanishIndex = true ∧
-    histReasons σ3 World.init wVanishIndex = ["vanish_last_index"] ∧
-    ¬ OutsEquiv (Catalog.run σ3 World.init wVanishIndex).2
-        (Spec.Catalog.run σ3 SWorld.init wVanishIndex).2 := by decide +kernel
+/-- insert a document, delete it: the collection is still listed, and so is its database (seen
+    through the client sharing the store); it shows the `_id_` index and no document -/
+theorem repaired_vanish_last_doc :
+    histInD σ3 World.init (wVanishDoc ++ wStillThere) = true ∧
+    (Catalog.run σ3 World.init (wVanishDoc ++ wStillThere)).2.drop 2 =
+      [.ok, .count 1, .names ["a"], .names ["d1"], .indexes [("_id_", idIndex)], .ids []] := by
+  decide +kernel
 
-/-! ### The five classes repaired in the library
-
-The witness histories of the former known findings `rename_self_droptarget`,
-`filter_lists_uncreated`, `drop_database_foreign_handle`, `drop_collection_foreign_handle` and
-`system_create_existing` are inside D now (no exclusion class is left for them), so
-`refinement_partial` covers them; the answers of the model on them are spelt out. -/
+/-- create an index, drop it: the collection is still listed, with the `_id_` index only -/
+theorem repaired_vanish_last_index :
+    histInD σ3 World.init (wVanishIndex ++ wStillThere) = true ∧
+    (Catalog.run σ3 World.init (wVanishIndex ++ wStillThere)).2.drop 2 =
+      [.name "x_1", .ok, .names ["a"], .names ["d1"], .indexes [("_id_", idIndex)], .ids []] := by
+  decide +kernel
 
 /-- `rename_collection("a", "a", dropTarget=True)` is refused and the document is still there -/
 theorem repaired_rename_self_droptarget :
@@ -184,58 +190,113 @@ example : ∃ (w : World) (ops : List Op), WF w ∧ ops.all isRead = true ∧ op
    reachable_wf σ3 _ ⟨wGood, rfl⟩, by decide +kernel, rfl⟩
 
 /-- **first write creates, existence lasts until a drop.**  After an insert or an index creation
-    through an obtained handle the collection exists, and along every continuation in D that
-    contains no drop of it, no rename from or onto it and no drop of its database it still
-    exists at the end: its database is listed, and so is the collection (system collections are
-    never listed). -/
+    through an obtained handle the collection exists, and along EVERY continuation that contains
+    no drop of it, no rename from or onto it and no drop of its database - deletes down to no
+    document and index drops down to no index included - it still exists at the end: its
+    database is listed, and so is the collection (system collections are never listed). -/
 theorem exists_from_first_write_until_drop (σ : Nat → Nat) (w : World) (h : CollH) (o : CollOp)
     (ops : List Op) (hw : WF w) (hob : obtainedColl w h = true)
     (ho : (∃ id, o = .insert id) ∨ (∃ nm info, o = .createIndex nm info))
-    (hD : histInD σ (Catalog.step σ w (.coll h o)).1 ops = true)
     (hne : ops.all (fun op => !mayRemove σ (σ h.client) h.db h.coll op) = true) :
     created (Catalog.run σ (Catalog.step σ w (.coll h o)).1 ops).1 (σ h.client) h.db h.coll = true ∧
     h.db ∈ ((Catalog.run σ (Catalog.step σ w (.coll h o)).1 ops).1.store (σ h.client)).listDbs ∧
     (isSystem h.coll = false →
       h.coll ∈ ((Catalog.run σ (Catalog.step σ w (.coll h o)).1 ops).1.store (σ h.client)).listColls h.db) := by
   have hw1 := Proofs.C17.wf_step σ w (.coll h o) hw
-  have hc := Proofs.C17.exists_until_drop σ (σ h.client) h.db h.coll ops _ hw1 hD hne
+  have hc := Proofs.C17.exists_until_drop σ (σ h.client) h.db h.coll ops _ hw1 hne
     (Proofs.C17.write_creates σ w h o hob ho)
   exact ⟨hc, Proofs.C17.created_listed (Proofs.C17.wf_run σ ops _ hw1) _ _ _ hc⟩
 
-/-- a non-trivial inhabitant: insert through client 0, then a continuation in D by both clients
-    of the store (inserts, deletes down to one document, an index, reads, a rename elsewhere) -/
+/-- a non-trivial inhabitant: insert through client 0, then a continuation by both clients of the
+    store that deletes every document (the one inserted through the other client too), creates
+    and drops an index, renames elsewhere, reads and lists -/
 example : ∃ (w : World) (h : CollH) (ops : List Op), WF w ∧ obtainedColl w h = true ∧
-    histInD σ3 (Catalog.step σ3 w (.coll h (.insert 1))).1 ops = true ∧
-    ops.all (fun op => !mayRemove σ3 (σ3 h.client) h.db h.coll op) = true ∧ ops.length = 7 :=
+    ops.all (fun op => !mayRemove σ3 (σ3 h.client) h.db h.coll op) = true ∧ ops.length = 9 ∧
+    (Catalog.step σ3 (Catalog.run σ3 (Catalog.step σ3 w (.coll h (.insert 1))).1 ops).1
+      (.coll h .find)).2 = .ids [] :=
   ⟨(Catalog.run σ3 World.init [.getDb 0 "d1", .getColl d1 "a", .getDb 2 "d1",
       .getColl ⟨2, "d1"⟩ "a", .getColl ⟨2, "d1"⟩ "b"]).1, a1,
    [.coll ⟨2, "d1", "a"⟩ (.insert 2), .coll a1 (.deleteOne 1), .coll a1 (.createIndex none xIdx),
     .coll ⟨2, "d1", "b"⟩ (.insert 5), .renameCollection ⟨2, "d1"⟩ "b" "c" true,
+    .coll ⟨2, "d1", "a"⟩ .deleteAll, .coll a1 .dropIndexes,
     .coll a1 .find, .listCollectionNames d1 none],
-   reachable_wf σ3 _ ⟨_, rfl⟩, by decide +kernel, by decide +kernel, by decide +kernel, rfl⟩
+   reachable_wf σ3 _ ⟨_, rfl⟩, by decide +kernel, by decide +kernel, rfl, by decide +kernel⟩
 
 /-- the same from an explicit `create_collection` of a name that does not exist (system
     collections included): it succeeds, and the collection exists until dropped -/
 theorem exists_from_create_collection_until_drop (σ : Nat → Nat) (w : World) (h : DbH)
     (n : String) (ops : List Op) (hw : WF w) (hob : obtainedDb w h = true)
     (hv : validName n = true) (hnew : created w (σ h.client) h.db n = false)
-    (hD : histInD σ (Catalog.step σ w (.createCollection h n)).1 ops = true)
     (hne : ops.all (fun op => !mayRemove σ (σ h.client) h.db n op) = true) :
     (Catalog.step σ w (.createCollection h n)).2 = .ok ∧
     created (Catalog.run σ (Catalog.step σ w (.createCollection h n)).1 ops).1 (σ h.client) h.db n
       = true := by
   have hc := Proofs.C17.create_new_succeeds σ w h n hw hob hv hnew
   exact ⟨hc.1, Proofs.C17.exists_until_drop σ (σ h.client) h.db n ops _
-    (Proofs.C17.wf_step σ w _ hw) hD hne hc.2⟩
+    (Proofs.C17.wf_step σ w _ hw) hne hc.2⟩
 
 example : ∃ (w : World) (ops : List Op), WF w ∧ obtainedDb w d1 = true ∧
     created w (σ3 0) "d1" "a" = false ∧
-    histInD σ3 (Catalog.step σ3 w (.createCollection d1 "a")).1 ops = true ∧
     ops.all (fun op => !mayRemove σ3 (σ3 0) "d1" "a" op) = true ∧ ops.length = 3 :=
   ⟨(Catalog.run σ3 World.init [.getDb 0 "d1"]).1,
    [.coll a1 (.insert 1), .coll a1 .deleteAll, .listDatabaseNames 0],
-   reachable_wf σ3 _ ⟨_, rfl⟩, by decide +kernel, by decide +kernel, by decide +kernel,
-   by decide +kernel, rfl⟩
+   reachable_wf σ3 _ ⟨_, rfl⟩, by decide +kernel, by decide +kernel, by decide +kernel, rfl⟩
+
+/-- **... and only a drop ends it.**  Whatever the step - any operation through any client, in
+    or out of the scope of the model - if a collection existed before it and does not exist
+    after it, the step was a drop of that collection, a rename from or onto its name, or a drop
+    of its database, on that store.  (The former findings `vanish_last_doc` /
+    `vanish_last_index` were steps contradicting this.) -/
+theorem existence_ends_only_by_removal (σ : Nat → Nat) (w : World) (op : Op) (i : Nat)
+    (d n : String) (hw : WF w) (hex : created w i d n = true)
+    (hgone : created (Catalog.step σ w op).1 i d n = false) : mayRemove σ i d n op = true :=
+  Proofs.C17.vanishes_only_by_removal σ w op i d n hw hex hgone
+
+/-- non-vacuity: a reachable state with an existing collection that a drop through the sharing
+    client removes -/
+example : WF (Catalog.run σ3 World.init (wGood.take 10)).1 ∧
+    created (Catalog.run σ3 World.init (wGood.take 10)).1 0 "d1" "b" = true ∧
+    created (Catalog.step σ3 (Catalog.run σ3 World.init (wGood.take 10)).1
+      (.coll ⟨2, "d1", "b"⟩ .drop)).1 0 "d1" "b" = false :=
+  ⟨reachable_wf σ3 _ ⟨_, rfl⟩, by decide +kernel, by decide +kernel⟩
+
+/-- **an emptied collection still exists.**  An existing collection - however it came to exist -
+    from which every document is deleted and every index dropped is still there: it finds
+    nothing, `index_information()` shows exactly `_id_`, and it and its database are still
+    listed. -/
+theorem emptied_collection_still_exists (σ : Nat → Nat) (w : World) (h : CollH) (hw : WF w)
+    (hob : obtainedColl w h = true) (hex : created w (σ h.client) h.db h.coll = true) :
+    let w' := (Catalog.run σ w [.coll h .deleteAll, .coll h .dropIndexes]).1
+    created w' (σ h.client) h.db h.coll = true ∧
+    (Catalog.step σ w' (.coll h .find)).2 = .ids [] ∧
+    (Catalog.step σ w' (.coll h .indexInformation)).2 = .indexes [("_id_", idIndex)] ∧
+    h.db ∈ (w'.store (σ h.client)).listDbs ∧
+    (isSystem h.coll = false → h.coll ∈ (w'.store (σ h.client)).listColls h.db) :=
+  Proofs.C17.emptied_still_exists σ w h hw hob hex
+
+/-- a collection with two documents and an index that exists only through its first insert,
+    emptied through the other client of the store -/
+example : WF (Catalog.run σ3 World.init ((wGood.take 10).take 2 ++
+      [.coll a1 (.insert 1), .coll a1 (.insert 2), .coll a1 (.createIndex none xIdx),
+       .getDb 2 "d1", .getColl ⟨2, "d1"⟩ "a"])).1 ∧
+    obtainedColl (Catalog.run σ3 World.init ((wGood.take 10).take 2 ++
+      [.coll a1 (.insert 1), .coll a1 (.insert 2), .coll a1 (.createIndex none xIdx),
+       .getDb 2 "d1", .getColl ⟨2, "d1"⟩ "a"])).1 ⟨2, "d1", "a"⟩ = true ∧
+    created (Catalog.run σ3 World.init ((wGood.take 10).take 2 ++
+      [.coll a1 (.insert 1), .coll a1 (.insert 2), .coll a1 (.createIndex none xIdx),
+       .getDb 2 "d1", .getColl ⟨2, "d1"⟩ "a"])).1 (σ3 2) "d1" "a" = true :=
+  ⟨reachable_wf σ3 _ ⟨_, rfl⟩, by decide +kernel, by decide +kernel⟩
+
+/-- **existence is recorded, not derived**: in every reachable state a collection exists iff
+    its store carries the created flag - set by the first insert, by an index creation and by
+    `create_collection`, reset by nothing but a drop (a rename moves the store, flag included). -/
+theorem existence_is_recorded (σ : Nat → Nat) (w : World) (hr : Reachable σ w) (i : Nat)
+    (d n : String) : created w i d n = ((w.store i).coll d n).forceCreated :=
+  Proofs.C17.created_eq_flag (Proofs.C17.reachable_wf σ w hr) i d n
+
+example : Reachable σ3 (Catalog.run σ3 World.init (wVanishDoc ++ wStillThere)).1 ∧
+    created (Catalog.run σ3 World.init (wVanishDoc ++ wStillThere)).1 0 "d1" "a" = true :=
+  ⟨⟨_, rfl⟩, by decide +kernel⟩
 
 /-- **create_collection on an existing name fails** with CollectionInvalid and changes nothing -
     whether the existing collection is listed or is a (hidden) system collection -/
@@ -402,7 +463,7 @@ theorem filtered_listing_is_filter_of_listing (σ : Nat → Nat) (w : World) (h 
 example : obtainedDb (Catalog.run σ3 World.init wGood).1 d1 = true ∧
     (NameFilter.opNe "a").falsy = false := by decide +kernel
 
-/-- **index_information is exact**: after every history in D it lists `_id_` followed by exactly
+/-- **index_information is exact**: after every history (in the scope of the model) it lists `_id_` followed by exactly
     the indexes the explicit-existence namespace holds for that collection - those created (by
     anyone, under this or, through renames, another name) and not dropped since - and nothing
     when the collection does not exist. -/
